@@ -114,7 +114,19 @@ pub enum Action {
 	Reconnect { a: usize, b: usize },
 	/// paths: per path the channel indices from the sender on; amts: amount delivered per path;
 	/// fee_delta_msat: deliberate over(+)/under(-)payment of every forwarding fee
-	Send { from: usize, to: usize, paths: Vec<Vec<usize>>, amts: Vec<u64>, fee_delta_msat: i64, cltv_delta_adj: i32 },
+	Send {
+		from: usize,
+		to: usize,
+		paths: Vec<Vec<usize>>,
+		amts: Vec<u64>,
+		fee_delta_msat: i64,
+		cltv_delta_adj: i32,
+		/// C04: a sender-side flaw the recipient must refuse. 1: a bit of the payment secret
+		/// flipped, 2: the secret of the previous payment to this recipient, 3: less than the
+		/// amount the recipient registered, 4: the onion announces a larger total than is sent
+		#[serde(default)]
+		flaw: u8,
+	},
 	Drain { n: usize },
 	Forward { n: usize },
 	Tick { n: usize },
@@ -511,6 +523,8 @@ pub struct Pay {
 	pub send_height: u32,
 	/// profile `onionline`: the one forwarding hop (index into the path's nodes) that is under-paid
 	pub underpaid_hop: Option<usize>,
+	/// C04: the sender-side flaw of this payment (0 = none); a flawed payment must be refused
+	pub flaw: u8,
 	/// the sender restarted from a manager snapshot older than the payment and re-learned it
 	/// from its ChannelMonitors
 	pub rehydrated: bool,
@@ -1815,7 +1829,7 @@ impl World {
 
 	pub fn do_send(
 		&mut self, from: usize, to: usize, paths: &[Vec<usize>], amts: &[u64], fee_delta: i64,
-		cltv_adj: i32,
+		cltv_adj: i32, flaw: u8,
 	) -> bool {
 		let (ms, mr) = match (self.mgr(from), self.mgr(to)) {
 			(Some(a), Some(b)) => (a, b),
@@ -1835,7 +1849,13 @@ impl World {
 		pre[8..16].copy_from_slice(&self.cfg.node_seed.to_be_bytes());
 		let preimage = PaymentPreimage(pre);
 		let hash = PaymentHash(Sha256::hash(&pre).to_byte_array());
-		let secret = match catch(|| mr.create_inbound_payment_for_hash(hash, None, 7200, None, None)) {
+		// flaw 3: the recipient registers (and expects) more than the sender will pay
+		let registered_min = match flaw {
+			3 => Some(total + 1 + total / 50),
+			0 => None,
+			_ => Some(total),
+		};
+		let secret = match catch(|| mr.create_inbound_payment_for_hash(hash, registered_min, 7200, None, None)) {
 			Ok(Ok((s, _))) => s,
 			Ok(Err(())) => {
 				self.harness_error("create_inbound_payment_for_hash failed".into());
@@ -1886,7 +1906,19 @@ impl World {
 		// the route is given, not searched for: no fee budget applies
 		route_params.max_total_routing_fee_msat = None;
 		let route = Route { paths: route_paths, route_params };
-		let onion = RecipientOnionFields::secret_only(secret, total);
+		let genuine_secret = secret;
+		let mut secret = secret;
+		let mut onion_total = total;
+		match flaw {
+			1 => secret.0[7] ^= 0x10,
+			2 => match self.pays.iter().rev().find(|p| p.to == to) {
+				Some(prev) => secret = prev.secret,
+				None => secret.0[0] ^= 0x01,
+			},
+			4 => onion_total = total + total / 3 + 1,
+			_ => {},
+		}
+		let onion = RecipientOnionFields::secret_only(secret, onion_total);
 		// what the channel said it could carry, for the send-limit oracle
 		let first_hop_limits: Vec<(usize, u64, u64, u64, bool)> = infos
 			.iter()
@@ -1942,7 +1974,7 @@ impl World {
 			to,
 			preimage,
 			hash,
-			secret,
+			secret: genuine_secret,
 			total_msat: total,
 			paths: infos,
 			id,
@@ -1961,10 +1993,22 @@ impl World {
 			claim_incarnation: None,
 			send_height: self.nodes[from].synced_height,
 			underpaid_hop,
+			flaw,
 			rehydrated: false,
 		});
 		self.note(&format!("send pay {} {}->{} total {} accepted {}", idx, from, to, total, pending));
 		self.out.bump(if pending { "probe:send_accepted" } else { "probe:send_refused" });
+		if flaw != 0 && pending {
+			self.out.bump(&format!(
+				"fault:flawed_payment_{}",
+				match flaw {
+					1 => "secret_bit_flipped",
+					2 => "secret_of_another_payment",
+					3 => "below_registered_amount",
+					_ => "onion_total_above_parts_sent",
+				}
+			));
+		}
 		self.oracle_send_limits(from, idx, &first_hop_limits, pending);
 		self.after_node_action(from);
 		true
@@ -2392,8 +2436,8 @@ impl World {
 				}
 			},
 			Action::Reconnect { a, b } => self.do_reconnect(*a, *b),
-			Action::Send { from, to, paths, amts, fee_delta_msat, cltv_delta_adj } => {
-				self.do_send(*from, *to, paths, amts, *fee_delta_msat, *cltv_delta_adj)
+			Action::Send { from, to, paths, amts, fee_delta_msat, cltv_delta_adj, flaw } => {
+				self.do_send(*from, *to, paths, amts, *fee_delta_msat, *cltv_delta_adj, *flaw)
 			},
 			Action::Drain { n } => {
 				let live = self.nodes[*n].live.is_some();
